@@ -50,6 +50,11 @@ type Violation struct {
 	Case     json.RawMessage `json:"case"`
 	Count    int64           `json:"count"`
 	Order    int64           `json:"order"` // evaluation index at which it was first seen
+	// Shard/NShards/Tier identify the worker run that found it (used to
+	// re-execute the whole preceding history when the case alone does not fail).
+	Shard   int    `json:"shard"`
+	NShards int    `json:"nshards,omitempty"`
+	Tier    string `json:"tier,omitempty"`
 }
 
 // Margin tracks the worst observed error relative to its tolerance.
